@@ -1,7 +1,9 @@
 package main
 
 import (
+	"fmt"
 	"go/ast"
+	"os"
 	"strings"
 )
 
@@ -106,6 +108,17 @@ func factsSession() {
 			if !ok {
 				return true
 			}
+			isAcceptSelect := false
+			for _, c := range sel.Body.List {
+				if cc := c.(*ast.CommClause); cc.Comm != nil {
+					if snd, ok := cc.Comm.(*ast.SendStmt); ok && contains(show(snd), "sesh.acceptCh <- newStream") {
+						isAcceptSelect = true
+					}
+				}
+			}
+			if !isAcceptSelect {
+				return true
+			}
 			for _, c := range sel.Body.List {
 				cc := c.(*ast.CommClause)
 				if cc.Comm != nil {
@@ -121,15 +134,43 @@ func factsSession() {
 					refusal = "tombstone"
 				case j == "sesh.streams[frame.StreamID] = newStream ; sesh.streamsM.Unlock() ; sesh.streamCountIncr() ; go newStream.Close() ; return errAcceptBacklogFull":
 					refusal = "close"
+				case strings.HasPrefix(j, "sesh.streams[frame.StreamID] = nil ; select {") && strings.Contains(j, "case sesh.refusals <- frame.StreamID:") && strings.Contains(j, "default:") &&
+					strings.HasSuffix(j, "} ; sesh.streamsM.Unlock() ; sesh.refusalsOnce.Do(func() { go sesh.tellRefusals() }) ; return errAcceptBacklogFull"):
+					refusal = "queue"
 				default:
 					refusal = "?"
+					if os.Getenv("EXTRACT_DEBUG") != "" {
+						fmt.Fprintf(os.Stderr, "refusal branch: %q\n", j)
+					}
 				}
 			}
 			return true
 		})
+		// the queue variant: the teller sends one stream-closing frame (Seq 0) per queued id and ends on a failed send; the
+		// queue is closed where the accept queue is closed (closeSession, under streamsM - the lock the enqueue is made under)
+		told := false
+		if refusal == "queue" {
+			tr := fnOf(mx, "Session.tellRefusals")
+			cs := fnOf(mx, "Session.closeSession")
+			okTeller, okClose := false, false
+			if tr != nil {
+				src := show(tr.Body)
+				okTeller = strings.Contains(src, "for id := range sesh.refusals") && strings.Contains(src, "StreamID: id") && strings.Contains(src, "Closing:") && strings.Contains(src, "closingStream") &&
+					strings.Contains(src, "Seq:") && len(allCalls(tr, `^sesh\.sb\.send$`)) == 1
+			}
+			if cs != nil {
+				ce := events(cs)
+				iL := idx(ce, 0, "call", `^sesh\.streamsM\.Lock\(\)`)
+				iC := idx(ce, iL, "call", `^close\(sesh\.refusals\)`)
+				iU := idx(ce, iL, "call", `^sesh\.streamsM\.Unlock\(\)`)
+				okClose = iL >= 0 && iC > iL && iU > iC
+			}
+			told = okTeller && okClose
+		}
+		boolFact(g, "refusedStreamToldFromQueue", told, "recvDataFromRemote, backlog full: streams[id] = nil; non-blocking enqueue of the id into sesh.refusals (under streamsM); one tellRefusals goroutine per session sends a stream-closing frame per id; closeSession closes the queue under streamsM")
 		switch refusal {
-		case "tombstone":
-			boolFact(g, "refusedStreamClosedActively", false, "recvDataFromRemote, backlog full: streams[id] = nil; Unlock; return - the id is remembered as closed, the peer is told nothing")
+		case "tombstone", "queue":
+			boolFact(g, "refusedStreamClosedActively", false, "recvDataFromRemote, backlog full: streams[id] = nil (the id is remembered as closed, later frames are dropped, the count is not touched)")
 		case "close":
 			boolFact(g, "refusedStreamClosedActively", true, "recvDataFromRemote, backlog full: streams[id] = newStream; Unlock; streamCountIncr(); go newStream.Close(); return - registered, counted after the unlock and closed from this side (the peer gets a closing frame)")
 		default:
